@@ -362,6 +362,10 @@ pub enum Datum {
     Hex(u32),
     Oct(u16),
     Bin(u8),
+    /// non-decimal forms of signed types (extremes included)
+    BinI8(i8),
+    HexI16(i16),
+    OctI64(i64),
     Utf8(String),
     /// an error value written as response data (`code,"message[;extended]"`)
     Err(ErrSpec),
